@@ -27,7 +27,7 @@ def strategy(tp):
         "post_len": st.sampled_from([0, 10, 5000, 100000]),
         # on workers with a disk cache: make the STORED object (swap metadata + reply head + body) end exactly at,
         # just below or just above a multiple of the 4 KB disk I/O page ([pages, delta]); None = use body_len as is
-        "page_align": st.one_of(st.none(), st.none(), st.tuples(st.integers(1, 4), st.sampled_from([-1, 0, 0, 0, 1])).map(list)),
+        "page_align": st.one_of(st.none(), st.tuples(st.integers(1, 4), st.sampled_from([-1, 0, 0, 0, 0, 1]), st.sampled_from(["object", "object", "file"])).map(list)),
         "post_sent": st.one_of(st.just(1000), st.just(1000), st.integers(0, 1000)),                 # permille of the request body actually sent
     })
     return st.fixed_dictionaries({
@@ -136,10 +136,19 @@ def run_txn(env, ns, t, idx, socks):
     ev = "hold-%s-%d" % (ns, idx)
     body_len = t["body_len"]
     pa = t.get("page_align")
-    if pa and t["cacheable"] and getattr(env, "disk", False) and env.stored_overhead:
-        # the reply head stored for these transactions has the same length as the probe's (same header set), except
-        # for the number of digits of Content-Length / the framing field: small deltas are covered by "delta"
-        body_len = max(1, pa[0] * 4096 - (env.stored_overhead + len(path)) + pa[1])
+    if pa and t["cacheable"] and getattr(env, "disk", False):
+        # two alignments matter to a disk store: the swap FILE (metadata + reply head + body; mode 0) and the OBJECT as the
+        # store counts it (reply head + body: the unit in which data is queued for swap-out; mode 1)
+        from vlib.e2e import origin as om0
+
+        def head_len(n):
+            probe = {"status": 200, "framing": "length", "body_tag": path, "body_len": n, "headers": [["Cache-Control", "max-age=600"]]}
+            return len(om0.serialize_response(probe, env.clock)[0])
+        mode = pa[2] if len(pa) > 2 else "object"
+        body_len = 4000
+        for _ in range(3):   # the head contains the decimal body length: iterate to the fixed point
+            extra = (env.stored_overhead + len(path)) if (mode == "file" and env.stored_overhead) else head_len(body_len)
+            body_len = max(1, pa[0] * 4096 - extra + pa[1])
     beh = {"status": 200, "framing": "length" if body_len != t["body_len"] else t["framing"], "body_tag": path, "body_len": body_len,
            "headers": [["Cache-Control", "max-age=600" if t["cacheable"] else "no-store"]], "hold_timeout": 30}
     from vlib.e2e import origin as om
